@@ -1920,6 +1920,14 @@ class Interp:
                 poly = alg.mk_fn('at', B(lab, poly), P(w.poly))
                 ax += 1
                 continue
+            if isinstance(w, int) and not isinstance(w, bool) and mask is not None and lab is not None and lab in alg.poly_labels(mask):
+                # position w of a compressed selection: the first (w == 0) or last (w == -1) position of the axis at which the mask holds
+                if w in (0, -1) and alg.poly_labels(mask) == {lab}:
+                    poly = alg.mk_fn('at', B(lab, poly), P(alg.mk_fn('first' if w == 0 else 'last', B(lab, mask))))
+                    mask = None
+                    ax += 1
+                    continue
+                return Unk('element %d of a compressed selection' % w, e)
             if isinstance(w, int) and not isinstance(w, bool):
                 self.positional.append((lab, w, mod.path, e.lineno))
                 if lab is not None:
@@ -2003,6 +2011,9 @@ class Interp:
         else:
             return Unk('reduction axis', node)
         p = x.poly
+        if x.mask is not None and kind in ('min', 'max') and x.ndim == 1 and x.mask == alg.b_not(alg.mk_ind('isnan', x.poly)):
+            # the smallest / largest of the elements that are not NaN
+            return Arr((), alg.mk_fn('nan' + kind, B(x.dims[0], x.poly)), None, x.unit)
         if x.mask is not None:
             if kind in ('sum', 'any'):
                 p = x.mask * p
@@ -2377,6 +2388,10 @@ class Interp:
                 if isinstance(x, Foreign):
                     r = x.sl_len(self)
                     return Unk('len of %s' % type(x).__name__, e) if r is NotImplemented else r
+                if isinstance(x, Arr) and x.ndim >= 1 and x.mask is not None and x.dims[0] and x.dims[0] in alg.poly_labels(x.mask):
+                    if alg.poly_labels(x.mask) == {x.dims[0]}:
+                        return Arr((), alg.sum_over(x.mask, x.dims[0]), unit=num(1))          # a compressed selection has as many elements as the mask holds
+                    return Unk('len of a selection by a mask over several axes', e)
                 if isinstance(x, Arr) and x.ndim >= 1 and x.dims[0] in self.axis_len:
                     return self.axis_len[x.dims[0]]            # the configuration being analysed fixes the length of this axis
                 if isinstance(x, Arr) and x.ndim >= 1:
